@@ -1269,8 +1269,12 @@ func buildPlainFamily(f *family) error {
 		return &exchange{unauth: true, call: func(ctx context.Context) (any, error) { return rhp.RPCLatestRevision(ctx, l.T, id) },
 			oracle: func(res any, _ *recorded) []finding {
 				if got := res.(rhp4.RPCLatestRevisionResponse); !hostSigValid(l, got.Contract) {
-					// observation only: RPCLatestRevision has no key material to check with
+					// RPCLatestRevision has no key material to check with: the statement
+					// ("every revision it returns carries a valid host signature") is
+					// violated by construction of the API; reported under one stable
+					// signature (known finding KF-C10-1)
 					f.r.Count("latest_revision_returned_with_invalid_host_signature", 1)
+					return []finding{{"latest-revision-unauthenticated", "RPCLatestRevision reported success with a revision whose host signature does not verify (the call verifies nothing: it has no host key)", nil}}
 				}
 				return nil
 			}}, nil
